@@ -79,3 +79,8 @@ add('C06', 'exploration', 'all-pairs isolation monitor: every generated method m
     'For each method of the generated corpus (per seed) the mock is installed through the public lookup path its kind needs, with Apply (receiver identity recorded) and Return, and the whole corpus is then called and compared with the model (mocked value / original); plus generic instantiations of equal and different GC shape and same-named types in one builder. The corpus is generated per seed (sampled type space), all (mocked, observed) pairs within it are covered.',
     'Same-GC-shape instantiations are excluded from the unaffected set as the statement allows; for pointer-receiver methods called on a copy the receiver identity is not compared.',
     'DESIGN.md 2 C06')
+
+add('C07', 'exploration', 'slot-by-slot dispatch monitor over generated interface types and method subsets; interface-word snapshot compare; finalizer-based GC-reachability monitor on addresses decoded from the stubs',
+    'For generated interface types every subset (up to 3, and the full set) of methods is mocked on a nil-start and an implementation-start variable; every slot is called through the variable (exact arguments/results for mocked slots, "method not implements" panic otherwise), the other variable and (after Reset) the variable\'s own two words are compared with their pre-mock values; in half of the cases the builder is dropped, collections are forced and a finalizer attached to the object whose address each stub embeds must not fire while the stub is installed. Interface types are generated per seed (sampled); subsets are enumerated.',
+    'GC-reachability is decided by finalizers (definitive witness that the collector considers the object garbage), not by waiting for reuse; collections are disabled between installing a stub and arming its monitor.',
+    'DESIGN.md 2 C07')
